@@ -21,6 +21,8 @@
 (*   inbuf   bytes buffered and unread when the close happened (0 or 5)      *)
 (*   need    "le": the call needs no more than is buffered at call time;     *)
 (*           "gt": it needs one byte more                                   *)
+(*   hist    "fresh", or "timedout": a read timeout is set and one read timed   *)
+(*           out before the close (timer state left behind by earlier waits)  *)
 (*   rep     "once", "thrice" (same call three times in a row), "reuse"      *)
 (*           (another connection is opened in between so that the closed     *)
 (*           connection's poller slot has a new owner)                      *)
@@ -39,9 +41,13 @@ Modes     == {"user", "user_cb", "peer", "peer_cb", "peer_user", "detach"}
 InBufs    == {0, 5}
 Needs     == {"le", "gt"}
 Reps      == {"once", "thrice", "reuse"}
+Hists     == {"fresh", "timedout"}   \* "timedout": a read timeout is configured and one read already timed out before the close
 
 \* need only matters for the sized reader calls
-Cells == {<<m, mo, ib, nd, rp>> \in Methods \X Modes \X InBufs \X Needs \X Reps : m \in ReaderN \/ nd = "le"}
+Blocking == ReaderN \cup {"ReadByte", "Until"}
+Cells == {<<m, mo, ib, nd, rp, h>> \in Methods \X Modes \X InBufs \X Needs \X Reps \X Hists :
+             /\ (m \in ReaderN \/ nd = "le")
+             /\ (m \in Blocking \/ h = "fresh")}
 
 LocalModes == {"user", "user_cb", "peer_user", "detach"}
 
